@@ -571,8 +571,9 @@ def make_step(rec, env, cfg):
             first = next((c.cid for c in sl if c.kind != "close" and c.cid not in fresh), None)
             if first is not None:
                 mine = [c for c in sl if c.cid == first and c.kind != "close"][:3]
-                if any(c.kind == "execute" and c.info == "SELECT 1" for c in mine) or (mine and mine[0].fault is not None):
-                    ping_fault = any(c.fault is not None for c in mine)
+                bad_ = [c for c in mine if c.fault is not None or c.dead]  # injected fault, or the idle connection is dead
+                if any(c.kind == "execute" and c.info == "SELECT 1" for c in mine) or (mine and mine[0] in bad_):
+                    ping_fault = bool(bad_)
         if ms.loose or ping_fault or (op == "reconn" and (fired or ms.zombie or dead_calls)):
             # the statement is silent here: keep exploring with the invariants only
             m2 = m2.replace(loose=True, nins=ms.nins + (1 if op == "exec" else 0), sps=mech)
